@@ -15,15 +15,16 @@ const (
 )
 
 func GetRange(index, count, listLen uint32) (uint32, uint32) {
-	start := index * count
-	if start >= listLen {
+	// compute in 64 bits, index * count and start + count don't fit in 32
+	start := uint64(index) * uint64(count)
+	if start >= uint64(listLen) {
 		return listLen, listLen
 	}
-	end := start + count
-	if end >= listLen {
-		return start, listLen
+	end := start + uint64(count)
+	if end >= uint64(listLen) {
+		return uint32(start), listLen
 	}
-	return start, end
+	return uint32(start), uint32(end)
 }
 
 func GetFrontierContext(c chain.Chain, addr types.Address) (*nom.Momentum, vm_context.AccountVmContext, error) {
